@@ -46,7 +46,7 @@ Proof. exact entry_points_agree. Qed.
 Print Assumptions C20_entry_points_agree.
 
 (* ---- the full statement `forall f a, cleanup_iff_started (via_apprunner f a)` is REFUTED by the faithful
-   model in three ways; each witness is replayed on the implementation (corpus/C20/finding-*.json) ---- *)
+   model in two ways (a third one is repaired, see (c)); each witness is replayed on the implementation (corpus/C20/finding-*.json) ---- *)
 
 (* (a) a later start-up step fails after a sub-application's context started: Application.cleanup()
        takes the not-frozen branch and runs only the root's own contexts *)
@@ -64,29 +64,31 @@ Proof.
 Qed.
 Print Assumptions C20_cleanup_iff_started_refuted_cleanup_error.
 
-(* (c) an on_shutdown receiver raises: BaseRunner.cleanup() never reaches _cleanup_server() *)
-Theorem C20_cleanup_iff_started_refuted_shutdown_error :
-  exists f a, flat a = true /\ ~ cleanup_iff_started (via_apprunner f a).
-Proof. exists w_shutdown_f, w_shutdown_app. split; [reflexivity | exact refuted_shutdown]. Qed.
-Print Assumptions C20_cleanup_iff_started_refuted_shutdown_error.
+(* (c) REPAIRED in /repo 9bf51ac (was: an on_shutdown receiver raises and BaseRunner.cleanup() never reaches
+       _cleanup_server()).  Regression example: Server.shutdown and the context teardown still run, and the
+       receiver's exception is the one that leaves cleanup().  Replay: corpus/C20/fixed-on_shutdown-error-skips-cleanup.json *)
+Example C20_regression_on_shutdown_error_still_cleans :
+  via_apprunner (fails [SShutdown 201]) (App [RCtx 1; RSd 201]) =
+  [EEnter 1 true; ESite true; EPre; ESd 201 false; ESrv; EExit 1 true; ECleanupRaised (ErrStep (SShutdown 201))].
+Proof. exact regression_shutdown. Qed.
+Print Assumptions C20_regression_on_shutdown_error_still_cleans.
 
 (* ---- what holds instead ---- *)
 
-(* applications without sub-applications: every failure choice except a raising on_shutdown receiver
-   (excluded by (c)); exact reverse order, through both entry points *)
-Theorem C20_cleanup_iff_started_flat_partial : forall f a,
-  flat a = true -> no_shutdown_failure f ->
+(* applications without sub-applications: FULL — every failure choice (contexts, all three kinds of receivers,
+   site start), exact reverse order, through both entry points *)
+Theorem C20_cleanup_iff_started_flat : forall f a,
+  flat a = true ->
   exited (via_apprunner f a) = rev (entered (via_apprunner f a)) /\
   exited (fst (via_run_app f a)) = rev (entered (fst (via_run_app f a))) /\
   cleanup_iff_started (via_apprunner f a).
 Proof. exact flat_iff. Qed.
-Print Assumptions C20_cleanup_iff_started_flat_partial.
+Print Assumptions C20_cleanup_iff_started_flat.
 
-(* arbitrary trees: start-up succeeded (excludes (a)), no teardown step raises (excludes (b)), no
-   on_shutdown receiver raises (excludes (c)); a site may still fail to start.
-   Missing for the full statement: exactly the three refuted families above. *)
+(* arbitrary trees: start-up succeeded (excludes (a)) and no teardown step raises (excludes (b)); on_shutdown
+   receivers and the site may fail.  Missing for the full statement: exactly the two refuted families above. *)
 Theorem C20_cleanup_iff_started_tree_partial : forall f a l x,
-  no_shutdown_failure f -> no_teardown_failure f -> startup_app f a = (l, x, None) ->
+  no_teardown_failure f -> startup_app f a = (l, x, None) ->
   exited (via_apprunner f a) = xt_cleanup_order x /\
   exited (fst (via_run_app f a)) = xt_cleanup_order x /\
   cleanup_iff_started (via_apprunner f a).
@@ -99,13 +101,15 @@ Theorem C20_root_contexts_cleaned_when_startup_fails : forall f a l x e,
 Proof. exact root_cleaned_on_startup_failure. Qed.
 Print Assumptions C20_root_contexts_cleaned_when_startup_fails.
 
-(* order of the phases when start-up succeeded: close() on every connection (EPre) before the on_shutdown
-   receivers, Server.shutdown (ESrv) after them and before any cleanup context is torn down *)
+(* order of the phases when start-up succeeded, whatever raises afterwards: close() on every connection (EPre)
+   before the on_shutdown receivers, Server.shutdown (ESrv) after them — also when one of them raised — and
+   before any cleanup context is torn down; the exception leaving cleanup() is the last one raised *)
 Theorem C20_phase_order : forall f a l1 x,
-  startup_app f a = (l1, x, None) -> snd (shutdown_app f a) = None ->
-  exists l2 l3 r3,
-    via_apprunner f a = l1 ++ fst (site_phase f) ++ EPre :: l2 ++ ESrv :: l3 ++ raised_cleanup r3 /\
-    l2 = fst (shutdown_app f a) /\ cleanup_app f a x = (l3, r3) /\
+  startup_app f a = (l1, x, None) ->
+  exists l2 r2 l3 r3,
+    shutdown_app f a = (l2, r2) /\ cleanup_app f a x = (l3, r3) /\
+    via_apprunner f a = l1 ++ fst (site_phase f) ++ EPre :: l2 ++ ESrv :: l3 ++
+                        raised_cleanup (match r3 with Some e => Some e | None => r2 end) /\
     exited l1 = [] /\ exited l2 = [] /\ exited (via_apprunner f a) = exited l3.
 Proof. exact phase_order. Qed.
 Print Assumptions C20_phase_order.
@@ -114,7 +118,7 @@ Print Assumptions C20_phase_order.
 Example C20_example_flat :
   let a := App [RCtx 1; RCtx 2; RSu 101; RCtx 3; RCl 301] in
   let f := fails [SEnter 3; SExit 1; SCleanup 301; SSite] in
-  flat a = true /\ no_shutdown_failure f /\
+  flat a = true /\
   via_apprunner f a = [EEnter 1 true; EEnter 2 true; EEnter 3 false; ESetupRaised (ErrStep (SEnter 3));
                        EExit 2 true; EExit 1 false; ECleanupRaised (ErrStep (SExit 1))].
 Proof. vm_compute. repeat split; intros; reflexivity. Qed.
@@ -122,8 +126,8 @@ Print Assumptions C20_example_flat.
 
 Example C20_example_tree :
   let a := App [RCtx 1; RSub (App [RCtx 2; RCtx 3; RSu 102; RCl 302]); RSu 101; RSd 201; RCl 301] in
-  let f := fails [SSite] in
-  no_shutdown_failure f /\ no_teardown_failure f /\
+  let f := fails [SSite; SShutdown 201] in
+  no_teardown_failure f /\
   (exists l x, startup_app f a = (l, x, None) /\ xt_cleanup_order x = [1; 3; 2]) /\
   exited (via_apprunner f a) = [1; 3; 2] /\ entered (via_apprunner f a) = [1; 2; 3].
 Proof. vm_compute. repeat split; intros; try reflexivity. eexists; eexists; split; reflexivity. Qed.
